@@ -37,11 +37,14 @@ class Template:
                 if d == "source": self.meta["source"] = args[0]; continue
                 if d == "rewrite": self.meta["rewrite"] += args; continue
                 if d == "export": self.meta["export"] += args; continue
+                if d == "rewrite-text":
+                    a, b2 = s[len("//@rewrite-text"):].split("==>")
+                    self.meta.setdefault("rewrite_text", []).append((a.strip(), b2.strip())); continue
                 if d == "rlimit": self.meta["rlimit"] = args[0]; continue
                 if d == "assume": self.meta["assume"].append(" ".join(args)); continue
                 if d == "section":
                     cur = Section(args[0], args[1] if len(args) > 1 else None, [], ln); self.sections.append(cur); continue
-                if d in ("include-spec", "stub", "stub-assumed"):
+                if d in ("include-spec", "stub", "stub-assumed", "stub-trait", "extract"):
                     self.sections.append(Section(d, args, [], ln)); cur = None; continue
                 raise ValueError("%s:%d unknown directive %s" % (self.path, ln, d))
             if cur is None:
@@ -116,6 +119,7 @@ def _emit(b, chunks, text, label, real, extra=None):
 def _weave_real(b, unit, tmpl_item, src_item, label, rules, degrade=False):
     W.mark_item(tmpl_item)
     cur = RW.apply(src_item.toks, rules, b.rewrites)
+    cur = RW.apply_text(cur, b.template.meta.get("rewrite_text", []), b.rewrites)
     # the template skeleton is stored post-rewrite; apply the same (idempotent) rules to be safe
     out, notes = W.weave(tmpl_item.toks, cur, label, degrade)
     if any(n.startswith('DROPPED') or 'differs' in n for n in notes): b.changed.add(label)
@@ -136,7 +140,7 @@ def build(unit, strict=True, mutate=None, pid=None, degrade=(), extras=()):
     b = Built(); b.template = t
     chunks = ["// GENERATED by /verif/vf from /repo working tree + units/%s.rs -- do not edit\nuse vstd::prelude::*;\nverus! {\nglobal size_of usize == 8;\n" % unit + STD_PRELUDE]
     b.ranges.append({"start": 1, "end": 5 + STD_PRELUDE.count("\n"), "label": "<header>", "real": False})
-    rules = ["vis", "static", "attr", "constfold"] + t.meta["rewrite"]
+    rules = ["vis", "static", "attr", "constfold", "cratepath", "asserteq"] + t.meta["rewrite"]
     for s in t.sections:
         if s.kind == "spec":
             _emit(b, chunks, "\n".join(s.lines) + "\n", "<spec:%s@%d>" % (unit, s.lineno), False)
@@ -156,6 +160,16 @@ def build(unit, strict=True, mutate=None, pid=None, degrade=(), extras=()):
             info["status"] = ("proved-in:" + s.arg[0]) if (s.kind == "stub" and not info.get("home_external")) else "assumed (contract stated in unit %s, body not verified there)" % s.arg[0]
             b.stubs.append(info)
             _emit(b, chunks, txt + "\n", "<stub:%s %s>" % (s.arg[0], s.arg[1]), False)
+        elif s.kind == "extract":
+            rel, name = s.arg[0], s.arg[1]
+            c = [x for x in source_items(rel) if x.name == name and not _is_cfg_test(x)]
+            if not c: raise LostAnchor("lost-anchor: `%s` not found in %s" % (name, rel))
+            cur = RW.apply(c[0].toks, rules, b.rewrites)
+            _emit(b, chunks, render(cur) + "\n", name, True, {"file": rel, "src_line": c[0].toks[0].line})
+        elif s.kind == "stub-trait":
+            txt, infos = make_trait_stub(s.arg[0], s.arg[1], strict, pid)
+            b.stubs += infos
+            _emit(b, chunks, txt + "\n", "<stub-trait:%s %s>" % (s.arg[0], s.arg[1]), False)
         elif s.kind == "code":
             rel = s.arg or t.meta["source"]
             src = source_items(rel)
@@ -281,6 +295,32 @@ def make_stub(unit, fnpath, strict=True, pid=None):
                     head = render(it.toks[it.kw_idx:first_brace_depth0(it.toks, it.kw_idx) + 1])
                     return head + "\n" + _stub_text(m) + "\n}", {"fn": fnpath, "unit": unit, "home_external": _has_ext(m)}
     raise LostAnchor("lost-anchor: stub %s::%s not found in template" % (unit, fnpath))
+
+def make_trait_stub(unit, trait, strict=True, pid=None):
+    """trait declaration (with its contracts) + every impl of it in `unit`'s template, bodies replaced by stubs"""
+    t = Template(unit, strict=strict, pid=pid)
+    out = []; infos = []
+    for s, it in t.code_items():
+        if it.kind == "trait" and it.name == trait:
+            out.append(render(it.toks[it.attrs_end:]).strip())
+        if it.kind == "impl" and it.name.split(" for ")[0].strip() == trait:
+            head = render(it.toks[it.kw_idx:first_brace_depth0(it.toks, it.kw_idx) + 1]).strip()
+            parts = [head]
+            for m in impl_members(it)[2]:
+                if is_ghost_item(m):
+                    parts.append(render(m.toks).strip())
+                elif m.kind == "fn":
+                    parts.append(_stub_text(m))
+                    ty = it.name.split(" for ")[-1].strip()
+                    infos.append({"fn": "%s::%s" % (ty, m.name), "unit": unit,
+                                  "status": ("proved-in:" + unit) if not _has_ext(m) else "assumed (contract stated in unit %s, body not verified there)" % unit})
+                else:
+                    parts.append(render(m.toks).strip())
+            parts.append("}")
+            out.append("\n".join(parts))
+    if not out:
+        raise LostAnchor("lost-anchor: trait %s not found in template %s" % (trait, unit))
+    return "\n".join(out), infos
 
 def _has_ext(it):
     return any(it.toks[k].text == "external_body" for k in range(it.attrs_end))
